@@ -58,6 +58,12 @@ def generate(seed, tier, index):
         # position: after set-up and after the drive
         i_drive = [i for i, o in enumerate(ops) if o[0] == "drive"][0]
         ops.insert(i_drive + 1, k1)
+        if m.nh and rf.chance(0.35):
+            # between the two evaluations the caller assigns ONE rate constant on its own system object (after having
+            # exported and used the right-hand side): the engine keeps running on what it was set up with, the kinetics
+            # functions and a newly exported right-hand side follow the assignment
+            ops.insert(i_drive + 1, ["set_k", rf.randint(0, m.nh // 2 - 1), rf.choice(["kf", "kr", "kr"]),
+                                     rf.choice([0.25, 0.5, 2.0, 3.0])])
         ops.insert(i_drive, ["kinetics", entries, ac, gen_us(rf)])
     ops.append(["finalize"])
     scripts = [entry]
@@ -175,9 +181,17 @@ def check(case, results):
             traj.check_script_numbers(h.setup, phys, v, "C01")
             traj.euler_oracle(h, m, phys, v, stats, "C01")
         ops = case["lifetimes"][0]["episodes"][me]["ops"]
-        for ev in res.events:
-            if ev["e"] == me and ev["op"] == "kinetics" and "exc" not in ev and not ev.get("skipped"):
-                check_kinetics(ev, ops[ev["i"]], m, phys, v, stats, "C01", masked=bool(ops[ev["i"]][2]))
+        mk = m
+        for ev in sorted((e_ for e_ in res.events if e_["e"] == me), key=lambda e_: e_["i"]):
+            if ev["op"] == "set_k" and "exc" not in ev and not ev.get("skipped"):
+                import copy
+                o_ = ops[ev["i"]]
+                spec2 = copy.deepcopy(mk.spec)
+                spec2["reactions"][o_[1]][o_[2]] = [float(x) * float(o_[3]) for x in spec2["reactions"][o_[1]][o_[2]]]
+                mk = Model(spec2)
+                stats["rate_constant_reassigned_on_live_system"] = 1
+            if ev["op"] == "kinetics" and "exc" not in ev and not ev.get("skipped"):
+                check_kinetics(ev, ops[ev["i"]], mk, phys, v, stats, "C01", masked=bool(ops[ev["i"]][2]))
     nst = stats.get("euler_steps_checked", 0)
     stats["engine_steps"] = nst
     stats["nontrivial"] = 1 if nst >= 2 else 0
